@@ -50,7 +50,7 @@ def explore(work, name, alpha, depth, inits, maxshapes=6, sim=None):
 def _job(args):
     hid, h = args[0], args[1]
     try:
-        return K.run_history(hid, h, facets_on=(len(args) < 3 or args[2]))
+        return K.run_history(hid, h, facets_on=(len(args) < 3 or args[2]), companion=(len(args) > 3 and bool(args[3])))
     except Exception as e:   # a crash of the driver itself is a machinery failure, reported by the parent
         import traceback
         return {"id": hid, "h": h, "crash": "%s: %s\n%s" % (type(e).__name__, e, traceback.format_exc()[-3000:])}
